@@ -2,8 +2,8 @@
    Model: model/DriverKeys.v (result slot, completion routing through the
    Entry, submission queue with its overflow loop).  Which bytes went where is
    judged on the real driver by the oracle of ./check C02. *)
-From Compio.Model Require Import Base DriverKeys.
-From Compio.Thm Require Import DriverKeysThm.
+From Compio.Model Require Import Base DriverKeys ResultSlot.
+From Compio.Thm Require Import DriverKeysThm ResultSlotThm.
 
 (* in every reachable state an operation has at most one stored result *)
 Theorem C02_result_at_most_once : forall u es s k x,
@@ -49,3 +49,47 @@ Example C02_sq_cap1_example :
   submitted q = [10; 11] /\ sq q = [12].
 Proof. vm_compute. split; reflexivity. Qed.
 Print Assumptions C02_sq_cap1_example.
+
+(* ---- the result slot and its waker (key.rs set_waker / set_result / take_result;
+   model/ResultSlot.v, tied to the code by the history acceptor in RunDRV.v) ---- *)
+
+(* "and the waiting task is woken": however many wakers were registered for a pending
+   operation (it was polled by different tasks), the completion invokes the one
+   registered LAST *)
+Theorem C02_completion_wakes_latest_waker : forall o ws w r,
+  set_result (set_wakers (SPending o) (ws ++ [w])) r = Some (SReady r, Some w).
+Proof. exact completion_wakes_latest. Qed.
+Print Assumptions C02_completion_wakes_latest_waker.
+
+(* one result per slot, taken once, unchanged by later waker registrations *)
+Theorem C02_slot_result_exactly_once : forall s r s' w,
+  set_result s r = Some (s', w) ->
+  (forall r', set_result s' r' = None) /\
+  take_result s' = Some (STaken, r) /\
+  take_result STaken = None /\
+  (forall w', take_result (set_waker s' w') = Some (STaken, r)).
+Proof. exact result_exactly_once. Qed.
+Print Assumptions C02_slot_result_exactly_once.
+
+Theorem C02_take_before_completion_rejected : forall o ws,
+  take_result (set_wakers (SPending o) ws) = None.
+Proof. exact take_pending_rejected. Qed.
+Print Assumptions C02_take_before_completion_rejected.
+
+(* the acceptor the observed histories are run through: once a completion found waker
+   w in the slot, nothing else is accepted on the driver thread until w's invocation
+   has been observed *)
+Theorem C02_wake_is_owed : forall s k r w,
+  owed s = None -> lookup (slots s) k = SPending (Some w) ->
+  exists s', wstep s 6 k r = Some s' /\ owed s' = Some w /\
+    (forall kind key arg, wstrict kind = true -> wstep s' kind key arg = None) /\
+    (exists s'', wstep s' 109 w 0 = Some s'' /\ owed s'' = None).
+Proof. exact wake_is_owed. Qed.
+Print Assumptions C02_wake_is_owed.
+
+Example C02_waker_nonvacuous :
+  waccept [108; 0; 1;  108; 0; 2;  6; 0; 7;  109; 2; 0]%N = None /\
+  waccept [108; 0; 1;  108; 0; 2;  6; 0; 7;  109; 1; 0]%N <> None /\
+  waccept [108; 0; 1;  6; 0; 7;  101; 0; 1]%N <> None.
+Proof. exact wakers_replaced_example. Qed.
+Print Assumptions C02_waker_nonvacuous.
